@@ -9,6 +9,7 @@ from props import common, l3common, l3gen, strace_util, ws
 
 ID = "C10"
 NEEDS_BINARY = True
+NEEDS_HOOKED_BINARY = True
 TRUSTED_BASE = l3common.TRUSTED_L3 + ["strace -f: the list of write-class system calls in tools/props/strace_util.py"]
 
 FAILED = re.compile(rb"Patch (\S+) FAILED")
@@ -62,12 +63,50 @@ def run(ctx):
             if bad <= 2:
                 ctx.violation({"kind": "dry-run", "problems": problems, "workspace": l3common.ws_json(w),
                                "cfg": l3common.cfg_json(cfg), "args": l3gen.cfg_args(cfg)})
+    forced_dry_runs(ctx, rng, 30 if thorough else 8)
     l3common.compare(ctx, cases, "dry-run workspaces", real_results=reals)
     ctx.coverage["strace_runs"] = n_strace
     ctx.coverage["statement_checks"] = len(cases)
     l3common.finish(ctx, "random workspaces (1-4 files, 1-6 patches with 1-3 file entries: modify/create/delete/rename/mode, "
                          "-pN/-R entries, ~40% with a corrupted hunk) run with --dry-run under thread counts 1/2/4, all backup "
                          "settings and verbosities; distinct = distinct (workspace, config); non-trivial = at least one patch.")
+
+
+def forced_dry_runs(ctx, rng, n):
+    """the prediction under forced schedules of the parallel driver (hooked binary): with several failing patches
+    on different workers the dry run must name the same failing patch as the real, single-threaded run, whichever
+    worker gets to its failing patch first"""
+    from props import C06
+    done = bad = tries = 0
+    while done < n and tries < 10 * n:
+        tries += 1
+        w = l3gen.gen_workspace(rng, npatches=rng.randint(3, 7), fail_prob=1.0, nfail=rng.choice([2, 3]))
+        fps = C06.file_patches(ctx, w)
+        if not fps:
+            continue
+        th = rng.choice([2, 3, 4])
+        wk = C06.workers(ctx, fps, th)
+        if len(set(wk)) < 2:
+            continue
+        cfg = l3gen.default_cfg()
+        cfg["threads"] = 1
+        real, out_real, _ = l3gen.run_real(ctx.binary, w, cfg)
+        if l3common.exit_of(real) != "1" or not FAILED.findall(out_real):
+            continue
+        done += 1
+        for label, sched in C06.schedules(rng, fps, wk, th, 3):
+            c = dict(cfg)
+            c["threads"] = th
+            c["dry"] = True
+            r, out, log = C06.run_hooked(ctx, w, c, sched)
+            ctx.coverage["forced_dry_runs"] = ctx.coverage.get("forced_dry_runs", 0) + 1
+            if l3common.exit_of(r) != "1" or FAILED.findall(out) != FAILED.findall(out_real):
+                bad += 1
+                if bad <= 2:
+                    ctx.violation({"kind": "dry-run", "problems": ["forced schedule %s: the dry run reports %s (exit %s), the real run %s" % (
+                        label, FAILED.findall(out), l3common.exit_of(r), FAILED.findall(out_real))], "workspace": l3common.ws_json(w),
+                        "cfg": l3common.cfg_json(c), "schedule": sched})
+                break
 
 
 def replay(ctx, payload):
